@@ -1,6 +1,8 @@
 package props
 
 import (
+	"sync"
+	"bytes"
 	"encoding/json"
 	"fmt"
 	"strings"
@@ -34,6 +36,8 @@ type c13Case struct {
 	Want  string `json:"want,omitempty"`
 	Truth bool   `json:"truth,omitempty"`
 	ErrFn string `json:"errfn,omitempty"`
+	// retype part (c13_retype.go)
+	Retype *c13Retype `json:"retype,omitempty"`
 }
 
 type c13 struct{}
@@ -60,9 +64,12 @@ func (p *c13) Rule() string {
 	return "tree: every operator of the documented grammar with every operand-type signature (arithmetic, /, %, concat, 6 comparisons, && || ! unary-minus, ternary) x every literal/variable/nested-path leaf combination at depth 1 x 4 environments, every (outer operator, slot, inner operator) pairing at depth 2, plus seeded random well-typed trees of depth <= 2 (quick) / 3 (thorough), each in 4 surface styles (documented spaced syntax, \" strings, === / !==, unspaced operators); special: every variable path, unary-only expressions, bare literals, struct json-tag paths, direct calls of built-in and registered functions, calls as operands; chain: every filter chain of length <= 2 over 31 filter forms x 13 start values, length 3 exhaustive (thorough) or sampled (quick); pair: 13 parameter kinds (string,int,int64,uint,float64,bool,any,variadic,context-first,(T,error)) x 22 data values x piped/call-variable/call-literal/second-argument; quote: 34 string-literal contents (commas, pipes, parentheses, operator text, variable names, number-like, empty, other quote) x ' and \" x filter-argument/operand forms; err: unknown function, wrong arity, impossible conversion, function error in every position and chain placement; doc: the examples of docs/expressions.md, syntax.md, funcmap.md. Every case is rendered in all positions that accept it ({{ }} in text and inside a static attribute, :a, v-bind:a, v-if, v-else-if, v-show; pipes: the four printing positions) and compared with the reference interpreter. non-trivial = the reference decides the case (value or required error); distinct by (source text, environment, positions)"
 }
 
-func (p *c13) Plan(ctx core.Ctx) int { return c13PlanN(ctx) }
+func (p *c13) Plan(ctx core.Ctx) int { return c13PlanN(ctx) + c13NRetype() }
 
 func (p *c13) Gen(ctx core.Ctx, i int) any {
+	if n := c13PlanN(ctx); i >= n {
+		return c13BuildRetype(i - n)
+	}
 	return c13GenCase(ctx, i)
 }
 
@@ -172,7 +179,10 @@ func c13Run(o *core.Obs, src string, positions []string, tight bool, data map[st
 		for _, pos := range ps {
 			b.WriteString(c13Element(pos, src, q, tight))
 		}
-		out, err := renderStr(b.String(), data, vuego.WithFuncs(c13FuncMap))
+		// One long-lived engine per worker process: the same expression text is
+		// evaluated over differently typed environments on it, so anything the
+		// engine caches per expression text must not depend on the first data seen.
+		out, err := c13RenderShared(b.String(), data)
 		o.Evals++
 		return b.String(), out, err
 	}
@@ -295,6 +305,10 @@ func (p *c13) Exec(ctx core.Ctx, cc any) core.Obs {
 	c := cc.(c13Case)
 	var o core.Obs
 	if c.Part == "skip" || c.Part == "" {
+		return o
+	}
+	if c.Part == "retype" && c.Retype != nil {
+		c13ExecRetype(c, &o)
 		return o
 	}
 	if c.Env < 0 || c.Env >= c13NEnv {
@@ -648,4 +662,17 @@ func c13Describe(pos string, s *c13Seen) string {
 		return fmt.Sprintf("attribute value %q", s.attr)
 	}
 	return fmt.Sprintf("condition treated as %v", s.truth)
+}
+
+
+var (
+	c13Base     vuego.Template
+	c13BaseOnce sync.Once
+)
+
+func c13RenderShared(tpl string, data map[string]any) (string, error) {
+	c13BaseOnce.Do(func() { c13Base = vuego.New(vuego.WithFuncs(c13FuncMap)) })
+	var b bytes.Buffer
+	err := c13Base.New().Fill(data).RenderString(bg, &b, tpl)
+	return b.String(), err
 }
